@@ -233,6 +233,8 @@ macro_rules! body {
     }};
 }
 
+struct ViolationFound;
+
 fn run_case(case: Case) -> (u64, Option<String>, f64, usize) {
     let t0 = Instant::now();
     EXECUTIONS.store(0, Ordering::Relaxed);
@@ -253,10 +255,16 @@ fn run_case(case: Case) -> (u64, Option<String>, f64, usize) {
                 body!(SDown, case)
             }
             if let Some(v) = reg(|r| r.violation.clone()) {
-                let mut g = fv.lock().unwrap();
-                if g.is_none() {
-                    *g = Some(v);
+                {
+                    let mut g = fv.lock().unwrap();
+                    if g.is_none() {
+                        *g = Some(v);
+                    }
                 }
+                // end the exploration here: an execution that returns early makes loom replay the recorded path
+                // against a shorter execution, which never terminates. All model threads have been joined at this
+                // point, so the unwinding leaves through `check` and is caught by the caller.
+                std::panic::resume_unwind(Box::new(ViolationFound));
             }
         });
     }));
@@ -303,6 +311,13 @@ fn main() {
     match cmd {
         "check" => {
             let thorough = arg(&args, "--tier").as_deref() == Some("thorough");
+            // wall cap: loom has no deadline of its own; a run that exceeds the cap is a machinery failure, never a verdict
+            let cap: u64 = arg(&args, "--cap-secs").and_then(|s| s.parse().ok()).unwrap_or(if thorough { 3600 } else { 600 });
+            std::thread::spawn(move || {
+                std::thread::sleep(std::time::Duration::from_secs(cap));
+                eprintln!("pool-loom: wall cap of {cap} s exceeded, giving up without a verdict");
+                std::process::exit(3);
+            });
             let t0 = Instant::now();
             let mut total = 0u64;
             let mut samples = Vec::new();
